@@ -166,6 +166,8 @@ def module(cid, td, text, pats, exhaustive, specs=True):
                     % (RT, cid, RT, RT, RT, RT, RT, lim, specs, args_u, RT, lim, specs, args_r))
     if "Hash" in td.traits:
         body.append("    %sobs(\"%s\", \"hash\", i, -1, &format!(\"{}\\t{}\", %srec_hash(&u), %srec_hash(&p[..])));" % (RT, cid, RT, RT))
+        body.append("    { let (g, w) = %sslice_hash_pair(&mk(p), &mk(p), &[mk(p), mk(p)][..]); %sobs(\"%s\", \"hslice\", i, -1, &format!(\"{}\\t{}\\t{}\", (g == w) as u8, g, w)); }"
+                    % (RT, RT, cid))
     if "Clone" in td.traits:
         body.append("    let c = ::core::clone::Clone::clone(&u); let cb: [u8; SIZE] = unsafe { c.raw };\n"
                     "    %sobs(\"%s\", \"clone\", i, -1, if cb == *p { \"1\" } else { \"0\" });" % (RT, cid))
@@ -375,6 +377,9 @@ def main(tier, seed, scale=1.0):
                 elif op == "hash":
                     if res[0] != res[1] or res[0] != expected_hash(pats[i], which):
                         msg = "Hash input is not the byte slice of the value\nobserved: %s\nexpected: %s" % (res[0], expected_hash(pats[i], which))
+                elif op == "hslice":
+                    if res[0] != "1":
+                        msg = "a slice of two unions does not feed the length and then each value's bytes\nobserved: %s\nexpected: %s" % (res[1], res[2])
                 elif op == "clone":
                     if res[0] != "1":
                         msg = "clone() is not a bitwise copy"
